@@ -172,9 +172,9 @@ class FuncAudit:
             n = todo.pop()
             out.append(n)
             for c in ast.iter_child_nodes(n):
-                if isinstance(c, (ast.FunctionDef, ast.AsyncFunctionDef, ast.ClassDef, ast.Lambda)):
+                if isinstance(c, (ast.FunctionDef, ast.AsyncFunctionDef, ast.ClassDef)):
                     continue
-                todo.append(c)
+                todo.append(c)        # a lambda body belongs to the enclosing function
         return out
 
     def typ(self, e):
@@ -354,8 +354,6 @@ def functions(tree):
                 # class body statements are audited as part of '<class>'
                 out.append((prefix + c.name + '.<class>', ast.Module(body=[s for s in c.body if not isinstance(s, (ast.FunctionDef, ast.AsyncFunctionDef, ast.ClassDef))], type_ignores=[])))
                 walk(c, prefix + c.name + '.')
-            elif isinstance(c, ast.Lambda):
-                continue
             else:
                 walk(c, prefix)
     walk(tree, '')
@@ -387,6 +385,162 @@ def audit(repo='/repo', files=FILES):
         seen[s] = seen.get(s, 0) + 1
         out.append(s if seen[s] == 1 else (s[0], s[1], f'{s[2]} #{seen[s]}'))
     return out
+
+
+# ---------------------------------------------------------------------------------------------------------------
+# run-time cross-check of the static typing: the audited modules are imported through an AST rewriter that wraps the
+# iterable of every `for` (statement and comprehension clause), every argument of the order-sensitive calls, every
+# zero-argument .pop() receiver, every starred argument and every unpacked right-hand side in a recorder.  The recorder
+# notes (file, function, kind + source text) whenever the value really IS a set / frozenset at run time.  Every executed
+# set site must be one of the statically audited sites.
+
+EXECUTED = {}          # (file, function, kind + text) -> number of executions with a set / frozenset
+SEEN_NON_SET = {}      # the same key -> executions with something else (lists, dicts, views): static false positives
+
+
+def _rec(v, key):
+    if isinstance(v, (set, frozenset)):
+        EXECUTED[key] = EXECUTED.get(key, 0) + 1
+    else:
+        SEEN_NON_SET[key] = SEEN_NON_SET.get(key, 0) + 1
+    return v
+
+
+def _rec_pop(v, key):
+    _rec(v, key)
+    return v.pop()
+
+
+class _Instrument(ast.NodeTransformer):
+    def __init__(self, rel):
+        self.rel = rel
+        self.stack = []
+        self.keys = []
+
+    def qual(self):
+        return '.'.join(self.stack) if self.stack else '<module>'
+
+    def key(self, kind, text):
+        k = (self.rel, self.qual(), kind + ' ' + ' '.join(text.split()))
+        self.keys.append(k)
+        return ast.Constant(value=k)
+
+    def wrap(self, expr, kind, text, fn='_c19_rec'):
+        return ast.Call(func=ast.Name(id=fn, ctx=ast.Load()), args=[expr, self.key(kind, text)], keywords=[])
+
+    def visit_FunctionDef(self, node):
+        self.stack.append(node.name)
+        self.generic_visit(node)
+        self.stack.pop()
+        return node
+    visit_AsyncFunctionDef = visit_FunctionDef
+
+    def visit_ClassDef(self, node):
+        # statements of a class body are audited as `Class.<class>`, its methods as `Class.method`
+        self.stack.append(node.name)
+        new_body = []
+        for s in node.body:
+            if isinstance(s, (ast.FunctionDef, ast.AsyncFunctionDef, ast.ClassDef)):
+                new_body.append(self.visit(s))
+            else:
+                self.stack.append('<class>')
+                new_body.append(self.visit(s))
+                self.stack.pop()
+        node.body = new_body
+        node.decorator_list = [self.visit(d) for d in node.decorator_list]
+        self.stack.pop()
+        return node
+
+    def visit_For(self, node):
+        text = f'for {ast.unparse(node.target)} in {ast.unparse(node.iter)}'
+        self.generic_visit(node)
+        node.iter = self.wrap(node.iter, 'for', text)
+        return node
+    visit_AsyncFor = visit_For
+
+    def visit_comprehension(self, node):
+        text = f'for {ast.unparse(node.target)} in {ast.unparse(node.iter)}'
+        self.generic_visit(node)
+        node.iter = self.wrap(node.iter, 'for', text)
+        return node
+
+    def visit_Call(self, node):
+        text = ast.unparse(node)
+        f = node.func
+        order_call = isinstance(f, ast.Name) and f.id in ORDER_FUNCS
+        order_meth = isinstance(f, ast.Attribute) and f.attr in ('join', 'extend', 'extendleft', 'fromkeys', 'writelines')
+        is_pop = isinstance(f, ast.Attribute) and f.attr == 'pop' and not node.args and not node.keywords
+        self.generic_visit(node)
+        if is_pop:
+            return ast.Call(func=ast.Name(id='_c19_pop', ctx=ast.Load()), args=[node.func.value, self.key('pop', text)], keywords=[])
+        new_args = []
+        for a in node.args:
+            if isinstance(a, ast.Starred):
+                a.value = self.wrap(a.value, 'star', text)
+                new_args.append(a)
+            elif order_call or order_meth:
+                new_args.append(self.wrap(a, 'call', text))
+            else:
+                new_args.append(a)
+        node.args = new_args
+        if order_call or order_meth:
+            for k in node.keywords:
+                if k.arg != 'key':
+                    k.value = self.wrap(k.value, 'call', text)
+        return node
+
+    def visit_Assign(self, node):
+        text = ast.unparse(node)
+        self.generic_visit(node)
+        if any(isinstance(t, (ast.Tuple, ast.List)) for t in node.targets):
+            node.value = self.wrap(node.value, 'unpack', text)
+        return node
+
+
+def instrument_source(src, rel):
+    tree = ast.parse(src)
+    tr = _Instrument(rel)
+    tree = tr.visit(tree)
+    ast.fix_missing_locations(tree)
+    return tree
+
+
+def install_runtime_audit(repo, files=None):
+    """import hook: the audited modules under `repo` are compiled from their instrumented AST"""
+    import builtins
+    import importlib.abc
+    import importlib.machinery
+    files = files or FILES
+    wanted = {os.path.realpath(os.path.join(repo, f)): f for f in files}
+    builtins._c19_rec = _rec
+    builtins._c19_pop = _rec_pop
+
+    class Loader(importlib.machinery.SourceFileLoader):
+        def source_to_code(self, data, path, *, _optimize=-1):
+            rel = wanted.get(os.path.realpath(path))
+            if rel is None:
+                return super().source_to_code(data, path, _optimize=_optimize)
+            return compile(instrument_source(data.decode() if isinstance(data, bytes) else data, rel), path, 'exec', dont_inherit=True)
+
+        def get_code(self, fullname):          # never use / write the bytecode cache for instrumented modules
+            path = self.get_filename(fullname)
+            if os.path.realpath(path) in wanted:
+                return self.source_to_code(self.get_data(path), path)
+            return super().get_code(fullname)
+
+    class Finder(importlib.abc.MetaPathFinder):
+        def find_spec(self, fullname, path, target=None):
+            spec = importlib.machinery.PathFinder.find_spec(fullname, path, target)
+            if spec is not None and spec.origin and os.path.realpath(spec.origin) in wanted:
+                spec.loader = Loader(fullname, spec.origin)
+            return spec
+    sys.meta_path.insert(0, Finder())
+    return wanted
+
+
+def strip_occurrence(site):
+    import re
+    return (site[0], site[1], re.sub(r' #\d+$', '', site[2]))
 
 
 def main(repo='/repo', dest=None):
